@@ -17,7 +17,7 @@ func init() {
 			`R18.2 in ValidatingPool.GetWriter's validate closure the block index is incremented on every path (both modes) and in wound mode the verdict is sent before returning; ` +
 			`R18.5 what is forwarded is the drip buffer itself, other data only under dw.offset == 0; R18.3 the relay goroutine is joined before the file writer closes (shared with R16.4); R18.4 the drip buffer, the safekeeper buffer and the block validator's hashing context all use pwr.BlockSize. ` +
 			`R05.4 (shared) the aggregation goroutine keeps, merges or forwards every incoming wound. ` +
-			`NOT decided: that wounds tile the written range in offset order, slicing independence (index arithmetic in drip.Write), block-aligned-prefix pass-through.`,
+			`R18.7 what ComputeHashInfo stores as a file's group is a slice of the hash list whose high bound is computed from ComputeNumBlocks. NOT decided: that wounds tile the written range in offset order, slicing independence (index arithmetic in drip.Write), block-aligned-prefix pass-through.`,
 		Assumptions: []string{"the underlying writer and the Validate callback are identified as the fields Writer / Validate of drip.Writer"},
 		Run:         runC18,
 	})
@@ -79,6 +79,7 @@ func runC18(c *core.Ctx) {
 	c.Rule("R18.4", "drip buffer / safekeeper buffer / validator hashing context are one pwr.BlockSize block")
 	c.Rule("R18.6", "every writer the validating pool hands out validates")
 	ruleAggregationLosesNothing(c, woundKinds(c.P))
+	ruleHashGroupsHaveTheirLength(c, "R18.7")
 	if gw := c.P.Fn("pwr", "ValidatingPool.GetWriter"); gw == nil {
 		c.Missing("R18.6", "pwr.(*ValidatingPool).GetWriter", "not found")
 	} else {
@@ -464,4 +465,58 @@ func makeSliceLen(v ssa.Value) (n int64, isConst bool, isMake bool) {
 		}
 	}
 	return 0, false, false
+}
+
+// ruleHashGroupsHaveTheirLength is R18.7 (shared with C05 and C09): "beyond the signed block count" is decided
+// by the length of the file's hash group. What ComputeHashInfo stores as a file's group is therefore a slice
+// of the hash list that ends - a two-index slice whose high bound is computed from the file's block count -
+// not the rest of the list: a group that runs on into the next file's hashes lets blocks written past the
+// file's end be compared with, and pass as, the next file's blocks.
+func ruleHashGroupsHaveTheirLength(c *core.Ctx, rule string) {
+	c.Rule(rule, "each file's hash group ends with the file's last block")
+	fn := c.P.Fn("pwr", "ComputeHashInfo")
+	if fn == nil {
+		c.Missing(rule, "pwr.ComputeHashInfo", "not found")
+		return
+	}
+	var nb func(v ssa.Value, d int) bool
+	nb = func(v ssa.Value, d int) bool {
+		if d > 6 || v == nil {
+			return false
+		}
+		for _, o := range core.Origins(v) {
+			switch x := o.(type) {
+			case *ssa.Call:
+				if strings.HasSuffix(core.CalleeName(x), "pwr.ComputeNumBlocks") {
+					return true
+				}
+			case *ssa.BinOp:
+				if nb(x.X, d+1) || nb(x.Y, d+1) {
+					return true
+				}
+			}
+		}
+		return false
+	}
+	n := 0
+	core.Instrs(fn, func(in ssa.Instruction) {
+		mu, ok := in.(*ssa.MapUpdate)
+		if !ok || !strings.HasSuffix(core.TypeName(mu.Map.Type()), "pwr.HashGroups") {
+			return
+		}
+		n++
+		ends := false
+		for _, o := range core.Origins(mu.Value) {
+			if sl, ok := o.(*ssa.Slice); ok && sl.High != nil && nb(sl.High, 0) {
+				ends = true
+			} else {
+				ends = false
+				break
+			}
+		}
+		c.Check(ends, rule, core.FnName(fn), "group stored for a file: "+core.Describe(mu.Value), core.InstrPos(in),
+			"a slice of the hash list whose high bound is computed from ComputeNumBlocks(file size)",
+			"the group stored for a file does not end with the file's last block (it is the rest of the hash list, or its end is not computed from the file's block count): the validators' test 'block index beyond the signed count' compares with a length that includes the following files' hashes")
+	})
+	c.Floor(rule, "stores into the hash groups", n, 1)
 }
